@@ -4,10 +4,10 @@ from vfw import corpus
 PROPERTY = 'C04'
 WHAT = 'explicit'
 
-TOK_G = ['expr', 'dangling', 'nullamb', 'rr_prio', 'amb_inl', 'amb_mid', 'amb_exp1', 'amb_alias', 'amb_null', 'shape4', 'shape1', 'hidden_lrec',
+TOK_G = ['expr', 'dangling', 'nullamb', 'rr_prio', 'amb_inl', 'amb_mid', 'amb_exp1', 'amb_alias', 'amb_null', 'amb_nested_inl', 'amb_nested_inl2', 'shape4', 'shape1', 'hidden_lrec',
          'nullchain', 'ebnf', 'unitcycle', 'cycle2', 'ss']
-TXT_G = [('collide', 'dynamic'), ('collide', 'dynamic_complete'), ('nulltxt', 'dynamic_complete'), ('nulltxt', 'dynamic')]
-TXT_K = {'collide': 5, 'nulltxt': 6}
+TXT_G = [('collide', 'dynamic'), ('collide', 'dynamic_complete'), ('nulltxt', 'dynamic_complete'), ('nulltxt', 'dynamic'), ('opttail', 'dynamic_complete'), ('opttail', 'dynamic')]
+TXT_K = {'collide': 5, 'nulltxt': 6, 'opttail': 6}
 
 
 def make_plan(what, tier, seed):
@@ -24,16 +24,16 @@ def make_plan(what, tier, seed):
             slices.append({'id': '%s:tok:%s:L%d%s' % (what, g, Lg, '' if pin is None else ':pin%d' % pin), 'module': 'vfw.harness.amb',
                            'params': {'what': what, 'level': 'tok', 'g': g, 'L': Lg, 'pin': pin},
                            'timeout': int((est if pin is None else est / K * 1.5) * 3 + 60), 'twin': pin in (None, 0), 'bound': {'tokens': Lg, 'kinds': K}})
-    Lt = 3 if quick else 4
     for g, lexer in TXT_G:
         K = TXT_K[g]
+        Lt = (3 if quick else 4) + (2 if g == 'opttail' else 0)
         est = sum(K ** n for n in range(Lt + 1)) * 0.5
         pins = [None] if est <= budget else list(range(K))
         for pin in pins:
             slices.append({'id': '%s:txt:%s:%s:L%d%s' % (what, g, lexer, Lt, '' if pin is None else ':pin%d' % pin), 'module': 'vfw.harness.amb',
                            'params': {'what': what, 'level': 'txt', 'g': g, 'lexer': lexer, 'L': Lt, 'pin': pin},
                            'timeout': int((est if pin is None else est / K) * 3 + 60), 'twin': pin in (None, K - 1), 'bound': {'chars': Lt, 'classes': K}})
-    return slices, L, Lt
+    return slices, L, 3 if quick else 4
 
 
 def plan(tier, seed):
